@@ -24,17 +24,25 @@ CLAIM = dict(
          "writer, the reader run over the BYTES returns exactly the records written, in order, each with its own "
          "descriptor, then ends cleanly; built from msgpack M1 (decode(encode v) = v, any depth and size class), "
          "the envelope layer R1 (records, nested records, grouped members, varint sign-magnitude), framing and the "
-         "registry invariant; UTF-8/surrogateescape S1/S2. Tie: wire constants regenerated from packer.py/stream.py/"
+         "registry invariant; UTF-8/surrogateescape S1/S2; F1, the field-type layer: _unpack(_pack(v)) = v for every kind "
+         "of field (text, integers, booleans, floats, bytes, digests via hex, paths, commands, addresses, networks, typed "
+         "lists) and every well-formed value. Tie: wire constants regenerated from packer.py/stream.py/"
          "base.py; the executable model writes the *same bytes* as RecordStreamWriter for every generated record "
          "sequence (all serialisable field types, scalar and list, nested and grouped) and reads the implementation's "
          "bytes to the same packed records; real-code oracle compares deep observations before write / after read.",
-    note="partial: field-type constructors (_unpack: pathlib/ipaddress/shlex normal forms) and CPython's UTF-8 codec / "
-         "msgpack C extension are modelled and exercised by correspondence, not proved; text must be in the image of "
-         "decode(surrogateescape). Known finding: IPv6 addresses below 2^32 come back as IPv4.",
-    technique="Lean 4 induction over the msgpack value tree + byte-exact model/implementation correspondence",
+    note="partial: pathlib's normal form is a parameter of the field-layer theorem (its idempotence is exercised), "
+         "ipaddress/shlex parsing happens at construction time and is outside it; CPython's UTF-8 codec / msgpack C "
+         "extension are modelled and exercised by correspondence, not proved; text must be in the image of "
+         "decode(surrogateescape); timestamps are C13's. Known findings: IPv6 addresses below 2^32 come back as IPv4; a "
+         "digest given in upper-case hex comes back in lower case.",
+    technique="Lean 4 induction over write histories, the msgpack value tree and field kinds + byte-exact "
+              "model/implementation correspondence",
     design="8/C01")
 RULE = ("record sequences (1-8 records, 1-3 descriptors over every serialisable whitelisted type in scalar and [] form, "
         "values from per-type boundary pools, nested record/record[] to depth 2, grouped records) written via file "
+        "object / path / .gz path (a share of them under an active comparison-ignore configuration); field: every modelled "
+        "field type (scalar and []) x generated values + upper-case digests, low IPv6 addresses, non-normal paths, commands "
+        "through _pack / msgpack / _unpack; written via file "
         "object / path / .gz path; plus msgpack-level (mp) and utf-8 (utf8) value cases against msgpack-python / CPython. "
         "Non-trivial = a record sequence holding >=1 non-None value of a non-string type, or an mp/utf8 case outside "
         "ASCII/fixint; distinct by hash of the case.")
@@ -45,6 +53,52 @@ ASSUMPTIONS = ["_generated is always supplied by the generator (no wall-clock ti
 
 def EXHAUSTIVE(tier):
     return False
+
+
+# field types whose _pack/_unpack the Lean field layer (Model/FieldPack.lean) models, and the model's kind for each
+FIELD_KINDS = {"string": "text", "wstring": "text", "uri": "text", "varint": "int", "uint16": "int", "uint32": "int",
+               "filesize": "int", "unix_file_mode": "int", "net.tcp.Port": "int", "net.udp.Port": "int",
+               "boolean": "bool", "float": "float", "bytes": "bytes", "digest": "digest", "path": "path",
+               "command": "command", "net.ipaddress": "ip", "net.IPAddress": "ip", "net.ipnetwork": "ipnet",
+               "net.IPNetwork": "ipnet"}
+
+
+def kind_of(t):
+    return ["list", FIELD_KINDS[t[:-2]]] if t.endswith("[]") else FIELD_KINDS[t]
+
+
+def tval_of(v, t):
+    """typed field value -> TVal JSON of the Lean field layer (what the property observes of the field)"""
+    import pathlib
+    import struct
+    if v is None:
+        return ["U"]
+    if t.endswith("[]"):
+        return ["L", [tval_of(x, t[:-2]) for x in v]]
+    k = FIELD_KINDS[t]
+    if k == "text":
+        return ["T", V.enc_str(str.__str__(v))]
+    if k == "int":
+        return ["I", str(int(v))]
+    if k == "bool":
+        return ["B", bool(v)]
+    if k == "float":
+        return ["F", struct.pack(">d", float(v)).hex()]
+    if k == "bytes":
+        return ["Y", bytes(v).hex()]
+    if k == "digest":
+        return ["DG"] + [None if x is None else V.enc_str(x) for x in (v.md5, v.sha1, v.sha256)]
+    if k == "path":
+        return ["P", 1 if isinstance(v, pathlib.PureWindowsPath) else 0, V.enc_str(str(v))]
+    if k == "command":
+        fl = 1 if type(v).__name__ == "windows_command" else 0
+        exe = None if v.executable is None else V.enc_str(str(v.executable))
+        return ["C", fl, exe, [V.enc_str(a) for a in (v.args or [])]]
+    if k == "ip":
+        return ["IP", v.val.version, str(int(v.val))]
+    if k == "ipnet":
+        return ["NET", V.enc_str(str(v.val))]
+    raise ValueError(t)
 
 
 def gen_cases(rng, tier):
@@ -94,6 +148,26 @@ def gen_cases(rng, tier):
             case["ignore"] = r.choice([["_generated"], ["_source", "_classification"], names[:1] or ["x"],
                                        names + ["_generated", "_version"]])
         cases.append(case)
+    # ---- the field-type layer on its own: value -> _pack() -> msgpack round trip -> _unpack()
+    r = rng.fork("field")
+    for t in sorted(FIELD_KINDS):
+        for form in (t, t + "[]"):
+            if form.endswith("[]") and t not in V.LISTABLE:
+                continue
+            for _ in range({"quick": 3, "thorough": 40, "search": 10}[tier]):
+                cases.append({"kind": "field", "type": form, "value": V.gen_value(r, form, none_chance=5)})
+    MD5, SHA1 = "d41d8cd98f00b204e9800998ecf8427e", "da39a3ee5e6b4b0d3255bfef95601890afd80709"
+    for spec in [["digest", [MD5.upper(), None, None]], ["digest", [MD5[:16] + MD5[16:].upper(), SHA1.upper(), None]],
+                 ["digest", [None, None, None]], ["digest", [MD5, SHA1, None]]]:
+        cases.append({"kind": "field", "type": "digest", "value": spec})
+    for txt in ["::1", "::ffff:1.2.3.4", "0.0.0.1", "::", "255.255.255.255", "::1:0:0", "1::"]:
+        cases.append({"kind": "field", "type": "net.ipaddress", "value": ["ip", txt]})
+    for fl, txt in [("posix", "a//b/./c/"), ("posix", "/"), ("posix", "."), ("posix", ""), ("windows", "C:/x\\y/"),
+                    ("windows", "c:"), ("windows", "\\\\srv\\share\\f"), ("posix", "//net/x"), ("windows", "a/b")]:
+        cases.append({"kind": "field", "type": "path", "value": ["path", fl, V.enc_str(txt)]})
+    for fl, txt in [("posix", "/bin/ls -l '/tmp/a b'"), ("posix", "ls"), ("windows", "C:\\Win\\cmd.exe /c dir"),
+                    ("windows", "'c:\\Program Files\\x.exe' /s"), ("posix", "a//b -x")]:
+        cases.append({"kind": "field", "type": "command", "value": ["cmd", fl, V.enc_str(txt)]})
     # per-type focused sequences: one field, boundary pool swept
     r = rng.fork("types")
     for t in V.SERIALISABLE:
@@ -209,6 +283,29 @@ def run_real(case):
             return {"hex": s.encode("utf-8", "surrogateescape").hex()}
         except UnicodeEncodeError:
             return {"res": "encode-error"}
+    if k == "field":
+        from flow.record import RecordPacker
+        from flow.record.base import fieldtype
+        t = case["type"]
+        cls = fieldtype(t)
+        with warnings.catch_warnings():
+            warnings.simplefilter("ignore")
+            raw = V.build(case["value"])
+            v = raw if raw is None or isinstance(raw, cls) else cls(raw)
+            if v is None:
+                return {"before": ["none"], "after": ["none"], "tval": ["U"], "packed": ["N"], "tback": ["U"]}
+            packed = v._pack()
+            p = RecordPacker()
+            wire = p.unpack(p.pack(packed))          # what msgpack hands back (tuples for lists)
+            try:
+                back = cls._unpack(wire)
+                if back is not None and not isinstance(back, cls):
+                    back = cls(back)         # Record.__setattr__ (called by the generated __init__) coerces what _unpack returns
+                after, tback, err = V.observe(back), tval_of(back, t), None
+            except Exception as e:
+                after, tback, err = None, None, _errname(e) + ": " + str(e)[:100]
+        return {"before": V.observe(v), "after": after, "tval": tval_of(v, t), "packed": W.to_pv(packed), "tback": tback,
+                "error": err}
     # ---- stream
     from flow.record import RecordReader, RecordStreamReader, RecordStreamWriter, RecordWriter
 
@@ -320,12 +417,33 @@ def is_ipv6_low(a, b):
             and a[2] == 6 and b[2] == 4 and a[3] == b[3] and int(a[3]) < 2 ** 32)
 
 
+def is_digest_case(a, b):
+    """two digest observations (or hex texts) that differ only in the letter case of the hex text, the value read back
+    being the lower-case form"""
+    if isinstance(a, list) and isinstance(b, list) and len(a) == 4 == len(b) and a[0] == "digest" == b[0]:
+        return a != b and all(x == y or (isinstance(x, str) and isinstance(y, str) and x.lower() == y) for x, y in zip(a[1:], b[1:]))
+    return isinstance(a, str) and isinstance(b, str) and a != b and a.lower() == b and len(a) in (32, 40, 64)
+
+
 def oracle(case, obs):
     k = case["kind"]
     if k == "mp":
         if obs["back"] != obs["orig"]:
             return "msgpack-python does not round-trip: " + str(first_diff(obs["orig"], obs["back"]))
         return None
+    if k == "field":
+        if obs.get("error"):
+            return f"{case['type']}._unpack of its own _pack() raised {obs['error']}"
+        known = None
+        for path, a, b in all_diffs([obs["before"]], [obs["after"]], "value"):
+            if is_ipv6_low(a, b):
+                known = known or f"[ipv6<2^32] {path}: IPv6 address {a[3]} read back as IPv4"
+                continue
+            if is_digest_case(a, b):
+                known = known or f"[digest-case] {path}: digest text {a!r} comes back as {b!r}"
+                continue
+            return f"{case['type']}: _unpack(_pack(v)) differs from v at {path}: {a!r} != {b!r}"[:400]
+        return known
     if k != "stream":
         return None
     if obs["error"]:
@@ -353,6 +471,8 @@ def model_op(case, obs):
         return {"op": "utf8_dec", "hex": case["hex"]}
     if k == "utf8enc":
         return {"op": "utf8_enc", "s": case["s"]}
+    if k == "field":
+        return {"op": "c01_field", "kind": kind_of(case["type"]), "val": obs["tval"]}
     return [{"op": "wire_write", "objs": obs["pvs"]},
             {"op": "wire_read", "hex": obs["stream"], "hashes": obs["hashes"]}]
 
@@ -377,6 +497,14 @@ def compare(case, obs, mo):
         if "hex" in obs:
             return None if mo.get("hex") == obs["hex"] else f"encode differs: model {mo} vs CPython {obs}"
         return None if mo.get("res") == "encode-error" else f"CPython refuses, model gives {mo}"
+    if k == "field":
+        if "packed" not in mo:
+            return f"model error {mo}"
+        if mo["packed"] != obs["packed"]:
+            return f"{case['type']}._pack(): model {str(mo['packed'])[:120]} vs implementation {str(obs['packed'])[:120]}"
+        if obs.get("error") is None and mo.get("unpacked") != obs["tback"]:
+            return f"{case['type']}._unpack(): model {str(mo.get('unpacked'))[:120]} vs implementation {str(obs['tback'])[:120]}"
+        return None
     w, rd = mo
     if "stream" not in w:
         return f"model cannot pack what the implementation packed: {w}"
@@ -402,6 +530,8 @@ def nontrivial(case, obs):
                 return True
             return any(v[0] not in ("none", "str") for v in spec[2])
         return any(nt(s) for s in case["records"])
+    if k == "field":
+        return obs.get("tval", ["U"])[0] not in ("U", "T")
     if k == "mp":
         return case["v"][0] in ("a", "m", "x", "f64") or (case["v"][0] == "i" and abs(int(case["v"][1])) > 127)
     if k == "utf8dec":
@@ -413,6 +543,8 @@ def nontrivial(case, obs):
 
 def classify(case, obs):
     k = case["kind"]
+    if k == "field":
+        return ["field:" + case["type"]]
     if k != "stream":
         return k
     out = {"stream:" + case["via"]}
@@ -450,7 +582,11 @@ def shrink(case):
 def _ipv6_low(case, obs, failure):
     """every difference of the case is an IPv6 address below 2^32 read back as IPv4 (the oracle reports any other
     difference first)"""
-    return case["kind"] == "stream" and failure.startswith("[ipv6<2^32]")
+    return case["kind"] in ("stream", "field") and failure.startswith("[ipv6<2^32]")
 
 
-MATCHERS = {"ipv6_below_2_32": _ipv6_low}
+def _digest_case(case, obs, failure):
+    return case["kind"] == "field" and failure.startswith("[digest-case]")
+
+
+MATCHERS = {"ipv6_below_2_32": _ipv6_low, "digest_hex_case": _digest_case}
